@@ -123,6 +123,14 @@ MergeAll(r, C) ==
         /\ lg # <<>> /\ lg[Len(lg)][1] = "C"
         /\ \A i \in 1..Len(em) : SeqContains(ItemsP(lg), em[i])
 
+(* C20 (thread part): every item passed to the source by any thread reaches exactly one group subscriber (the one of its key) *)
+GroupDelivery(r, C) ==
+  LET ss == AllStims(C.threads)
+      em == EmittedItems(ss) IN
+  (Op(C.root) = "group_by" /\ \A i \in 1..Len(ss) : ss[i].k = "emit" /\ ss[i].t = "N") =>
+     \A i \in 1..Len(em) :
+        Cardinality({p \in DOMAIN r.probes : ~IsSetup(p) /\ SeqContains(ItemsP(r.probes[p]), em[i])}) = 1
+
 Judge(r) ==
   LET C == Cases[r.c]
       crash == r.stuck \/ r.fault # ""
@@ -140,6 +148,8 @@ Judge(r) ==
      \o f(~r.stuck /\ r.fault = "" /\ ~MovedAll(r, C), "C07")
      \o f(~crash /\ ~MergeAll(r, C), "C04")
      \o f(crash /\ rootop \in {"merge", "zip", "combine_latest", "with_latest_from", "take_until", "skip_until", "sample", "buffer"}, "C04")
+     \o f(crash /\ rootop = "group_by", "C20")
+     \o f(~crash /\ ~GroupDelivery(r, C), "C20")
      \o f(r.late, "C02")
      (* C17, last clause, under threads: in a pipeline whose subscription is a composite (merge_all ...) a subscriber called  *)
      (* after unsubscribe() returned means that an addition racing with the teardown was left running                       *)
